@@ -124,7 +124,10 @@ pub fn run_one(ctx: &mut Ctx, target: &str, prop: &str, data: &[u8]) {
                 }
                 "C14" => compose::check_c14(ctx, &cfg, how),
                 "C16" => writers::check_c16(ctx, &cfg, how),
-                "C17" => writers::check_c17(ctx, &cfg, how),
+                "C17" => {
+                    writers::check_c17(ctx, &cfg, how);
+                    writers::check_c17_subs(ctx, &cfg, how)
+                }
                 "C19" => compose::check_c19_cfg(ctx, &cfg, how),
                 "C20" => compose::check_c20(ctx, &cfg),
                 _ => writers::check_c06(ctx, &cfg, how),
